@@ -281,3 +281,297 @@ Proof.
   induction 1 as [|b l (t & Hv & ->) _ (ts & Hvs & ->)]; [exists []; split; [constructor|reflexivity]|].
   exists (t :: ts). split; [constructor; assumption|reflexivity].
 Qed.
+
+(* ------------------------------------------------------------------ SignedData *)
+Definition wf_sd (sd : sdata) : Prop :=
+  (exists c, all_bytes c = true /\ int64_ok c = true /\ small c /\ sd_version sd = dec_int c) /\
+  Forall wf_alg (sd_dalgs sd) /\ wf_ci (sd_ci sd) /\
+  wf_raws (opt_list (sd_certs sd)) /\ Forall wf_crl (opt_list (sd_crls sd)) /\ Forall wf_si (sd_sis sd).
+
+(* what re-parsing the emitted structure yields: the SET OF fields come back in emitted (sorted) order *)
+Definition norm_sd (sd : sdata) : sdata :=
+  mkSd (sd_version sd) (sort_on emit_algid (sd_dalgs sd)) (sd_ci sd) (sd_certs sd) (sd_crls sd) (sort_on emit_si (sd_sis sd)).
+
+Lemma Forall2_valid_r {A} (R : tlv -> A -> Prop) (P : A -> Prop) ts vs :
+  Forall valid ts -> Forall2 R ts vs -> (forall t v, valid t -> R t v -> P v) -> Forall P vs.
+Proof.
+  intros Hv H2 HP. induction H2; inversion Hv; subst; constructor; eauto.
+Qed.
+
+Lemma parse_sd_body_wf body sd : all_bytes body = true -> parse_sd_body body = Ok sd -> wf_sd sd.
+Proof.
+  intros Hb H. unfold parse_sd_body in H.
+  inv_bind H. destruct x as [t1 rest1]. apply read_expect_ok in E as (Hl1 & Hv1 & Ht1 & Hr1); [|exact Hb].
+  cbn [fst snd] in H. destruct (int64_ok (t_body t1)) eqn:Ei; cbn [negb] in H; [|discriminate].
+  inv_bind H. destruct x as [t2 rest2]. apply read_expect_ok in E as (Hl2 & Hv2 & Ht2 & Hr2); [|exact Hr1].
+  inv_bind H. cbn [fst] in E. apply parse_list_inv in E as (ts2 & Hb2 & Hvs2 & Hf2); [|apply valid_body_bytes; exact Hv2].
+  inv_bind H. destruct x0 as [t3 rest3]. cbn [snd] in E. apply read_expect_ok in E as (Hl3 & Hv3 & Ht3 & Hr3); [|exact Hr2].
+  inv_bind H. cbn [fst] in E.
+  inv_bind H. destruct x1 as [o4 rest4]. cbn [snd] in E0. rewrite certs_opt_v in E0.
+  apply read_optional_ok in E0; [|exact Hr3].
+  inv_bind H. cbn [fst] in E1.
+  inv_bind H. destruct x2 as [o5 rest5]. cbn [snd] in E2. rewrite crls_opt_v in E2.
+  assert (Hr4 : all_bytes rest4 = true) by (destruct o4; [tauto|subst; exact Hr3]).
+  apply read_optional_ok in E2; [|exact Hr4].
+  inv_bind H. cbn [fst] in E3.
+  assert (Hr5 : all_bytes rest5 = true) by (destruct o5; [tauto|subst; exact Hr4]).
+  inv_bind H. destruct x3 as [t6 rest6]. cbn [snd] in E4. apply read_expect_ok in E4 as (Hl6 & Hv6 & Ht6 & Hr6); [|exact Hr5].
+  inv_bind H. cbn [fst] in E4. apply parse_list_inv in E4 as (ts6 & Hb6 & Hvs6 & Hf6); [|apply valid_body_bytes; exact Hv6].
+  inversion H; subst sd; clear H. unfold wf_sd. cbn [sd_version sd_dalgs sd_ci sd_certs sd_crls sd_sis].
+  split; [|split; [|split; [|split; [|split]]]].
+  - exists (t_body t1). auto using valid_body_bytes, valid_small.
+  - eapply Forall2_valid_r; [exact Hvs2|exact Hf2|]. intros t v Hv [_ Hp]. eapply parse_algid_wf; [|exact Hp]. apply valid_body_bytes; exact Hv.
+  - exists t3. tauto.
+  - destruct o4 as [t4|]; cbn [opt_certs] in E1.
+    + destruct E0 as (_ & Hv4 & _). inv_bind E1. inversion E1; subst. cbn [opt_list].
+      apply read_all_ok in E0 as (_ & Hvs); [|apply valid_body_bytes; exact Hv4]. apply wf_raws_map. exact Hvs.
+    + inversion E1; subst. constructor.
+  - destruct o5 as [t5|]; cbn [opt_crls] in E3.
+    + destruct E2 as (_ & Hv5 & _). inv_bind E3. inversion E3; subst. cbn [opt_list].
+      apply parse_list_inv in E2 as (ts5 & _ & Hvs5 & Hf5); [|apply valid_body_bytes; exact Hv5].
+      eapply Forall2_valid_r; [exact Hvs5|exact Hf5|]. intros t v Hv [_ Hp]. eapply parse_crl_wf; eassumption.
+    + inversion E3; subst. constructor.
+  - eapply Forall2_valid_r; [exact Hvs6|exact Hf6|]. intros t v Hv [Htag Hp]. exists t. tauto.
+Qed.
+
+Definition starts_not (oct : Z) (rest : bytes) : Prop :=
+  rest = [] \/ exists t r, valid t /\ t_tag t <> oct /\ rest = t_full t ++ r.
+Lemma read_optional_skip oct rest : starts_not oct rest -> read_optional true oct rest = Ok (None, rest).
+Proof. intros [->|(t & r & Hv & Ht & ->)]; [reflexivity|]. apply read_optional_absent; assumption. Qed.
+
+Lemma certs_step certs rest :
+  wf_raws (opt_list certs) -> small (emit_opt_list OCT_certs certs) -> starts_not OCT_certs rest ->
+  exists r4, read_optional true OCT_certs (emit_opt_list OCT_certs certs ++ rest) = Ok (r4, rest) /\ opt_certs r4 = Ok certs.
+Proof.
+  intros Hw Hs Hn. destruct certs as [l|]; cbn [emit_opt_list opt_list] in *.
+  - apply wf_raws_read in Hw as (ts & Hvs & ->). apply small_enc_tlv in Hs.
+    set (body := concat (map t_full ts)) in *.
+    assert (Hb : all_bytes body = true).
+    { apply all_bytes_concat. clear - Hvs. induction Hvs; cbn; constructor; auto using valid_full_bytes. }
+    assert (Hv : valid (mkTlv OCT_certs body (enc_tlv OCT_certs body))) by (apply valid_enc; [tagok|assumption|assumption]).
+    exists (Some (mkTlv OCT_certs body (enc_tlv OCT_certs body))). split.
+    + change (enc_tlv OCT_certs body) with (t_full (mkTlv OCT_certs body (enc_tlv OCT_certs body))) at 1.
+      apply read_optional_present; [exact Hv|reflexivity].
+    + cbn [opt_certs t_body]. subst body. rewrite read_all_concat by exact Hvs. reflexivity.
+  - exists None. split; [|reflexivity]. cbn [app]. apply read_optional_skip. exact Hn.
+Qed.
+
+Lemma crls_step crls rest :
+  Forall wf_crl (opt_list crls) -> small (emit_opt_list OCT_crls (option_map (map emit_crl) crls)) -> starts_not OCT_crls rest ->
+  exists r5, read_optional true OCT_crls (emit_opt_list OCT_crls (option_map (map emit_crl) crls) ++ rest) = Ok (r5, rest) /\ opt_crls r5 = Ok crls.
+Proof.
+  intros Hw Hs Hn. destruct crls as [l|]; cbn [emit_opt_list opt_list option_map] in *.
+  - apply small_enc_tlv in Hs. set (body := concat (map emit_crl l)) in *.
+    assert (Hall : Forall (fun c => valid (mk_crl c) /\ t_tag (mk_crl c) = T_SEQ /\ parse_crl (mk_crl c) = Ok c) l).
+    { apply small_concat in Hs. rewrite Forall_forall in *. intros c Hc. apply crl_reparse; [apply Hw; exact Hc|].
+      apply Hs. apply in_map. exact Hc. }
+    assert (Hb : all_bytes body = true).
+    { apply all_bytes_concat. rewrite Forall_forall in *. intros b Hin. apply in_map_iff in Hin as (c & <- & Hc).
+      apply (valid_full_bytes (mk_crl c)). apply Hall. exact Hc. }
+    assert (Hv : valid (mkTlv OCT_crls body (enc_tlv OCT_crls body))) by (apply valid_enc; [tagok|assumption|assumption]).
+    exists (Some (mkTlv OCT_crls body (enc_tlv OCT_crls body))). split.
+    + change (enc_tlv OCT_crls body) with (t_full (mkTlv OCT_crls body (enc_tlv OCT_crls body))) at 1.
+      apply read_optional_present; [exact Hv|reflexivity].
+    + cbn [opt_crls t_body]. subst body.
+      change (map emit_crl l) with (map (fun c => t_full (mk_crl c)) l).
+      rewrite parse_list_emit by exact Hall. reflexivity.
+  - exists None. split; [|reflexivity]. cbn [app]. apply read_optional_skip. exact Hn.
+Qed.
+
+Lemma map_ext_Forall {A B} (f g : A -> B) l : Forall (fun x => f x = g x) l -> map f l = map g l.
+Proof. induction 1; cbn; congruence. Qed.
+
+Lemma sd_reparse sd : wf_sd sd -> small (emit_sd_body sd) -> parse_sd_body (emit_sd_body sd) = Ok (norm_sd sd).
+Proof.
+  intros ((c & Hcb & Hci & Hcs & Hver) & Hda & Hci' & Hce & Hcr & Hsi) Hs.
+  assert (Ecert : option_map (maybe_sort certs_set) (sd_certs sd) = sd_certs sd) by (rewrite certs_set_v; destruct (sd_certs sd); reflexivity).
+  unfold emit_sd_body in Hs |- *. rewrite Ecert in Hs |- *. clear Ecert.
+  rewrite dalgs_set_v, sis_set_v in Hs |- *. cbn [maybe_sort] in Hs |- *.
+  rewrite Hver, (enc_dec_int c Hcb Hci) in Hs |- *.
+  apply small_app in Hs as [_ Hs]. apply small_app in Hs as [Hs2 Hs]. apply small_app in Hs as [_ Hs].
+  apply small_app in Hs as [Hs4 Hs]. apply small_app in Hs as [Hs5 Hs6].
+  apply small_enc_tlv in Hs2. apply small_enc_tlv in Hs6.
+  (* the two SET OF bodies *)
+  set (dalgs' := sort_on emit_algid (sd_dalgs sd)).
+  set (sis' := sort_on emit_si (sd_sis sd)).
+  assert (Hd : Forall (fun a => valid (mk_alg a) /\ t_tag (mk_alg a) = T_SEQ /\ parse_algid (t_body (mk_alg a)) = Ok a) dalgs').
+  { apply Forall_sort_on. apply small_concat_sort in Hs2. rewrite Forall_forall in *. intros a Ha.
+    apply algid_reparse; [apply Hda; exact Ha|]. apply Hs2. apply in_map. exact Ha. }
+  assert (Hsw : Forall wf_si sis') by (apply Forall_sort_on; exact Hsi).
+  assert (Hsm : Forall (fun s => valid (mk_raw (si_raw s)) /\ t_tag (mk_raw (si_raw s)) = T_SEQ /\ parse_si (mk_raw (si_raw s)) = Ok s) sis').
+  { rewrite Forall_forall in *. intros s Hin. apply wf_si_mk. apply Hsw. exact Hin. }
+  assert (Ed : concat (sort_b (map emit_algid (sd_dalgs sd))) = concat (map (fun a => t_full (mk_alg a)) dalgs'))
+    by (rewrite concat_map_sort_on; reflexivity).
+  assert (Es : concat (sort_b (map emit_si (sd_sis sd))) = concat (map (fun s => t_full (mk_raw (si_raw s))) sis')).
+  { rewrite concat_map_sort_on. fold sis'. f_equal. apply map_ext_Forall.
+    rewrite Forall_forall in *. intros s Hin. cbn [mk_raw t_full]. apply emit_si_wf. apply Hsw. exact Hin. }
+  rewrite Ed in Hs2. rewrite Es in Hs6. rewrite Ed, Es.
+  set (dbody := concat (map (fun a => t_full (mk_alg a)) dalgs')) in *.
+  set (sbody := concat (map (fun s => t_full (mk_raw (si_raw s))) sis')) in *.
+  assert (Hdb : all_bytes dbody = true).
+  { apply all_bytes_concat. rewrite Forall_forall in *. intros b Hin. apply in_map_iff in Hin as (a & <- & Ha).
+    apply valid_full_bytes. apply Hd. exact Ha. }
+  assert (Hsb : all_bytes sbody = true).
+  { apply all_bytes_concat. rewrite Forall_forall in *. intros b Hin. apply in_map_iff in Hin as (s & <- & Hin).
+    apply valid_full_bytes. apply Hsm. exact Hin. }
+  assert (Hv6 : valid (mkTlv OCT_sis sbody (enc_tlv OCT_sis sbody))) by (apply valid_enc; [tagok|assumption|assumption]).
+  (* what follows the optional fields *)
+  assert (Hn5 : starts_not OCT_crls (enc_tlv OCT_sis sbody)).
+  { right. exists (mkTlv OCT_sis sbody (enc_tlv OCT_sis sbody)), []. split; [exact Hv6|]. split; [cbn [t_tag]; rewrite OCT_sis_v, OCT_crls_v; lia|].
+    cbn [t_full]. rewrite app_nil_r. reflexivity. }
+  destruct (crls_step (sd_crls sd) (enc_tlv OCT_sis sbody) Hcr Hs5 Hn5) as (r5 & Hr5 & Ho5).
+  assert (Hn4 : starts_not OCT_certs (emit_opt_list OCT_crls (option_map (map emit_crl) (sd_crls sd)) ++ enc_tlv OCT_sis sbody)).
+  { destruct (sd_crls sd) as [l|]; cbn [option_map emit_opt_list] in *.
+    - right. set (b := concat (map emit_crl l)) in *.
+      assert (Hv5 : valid (mkTlv OCT_crls b (enc_tlv OCT_crls b))).
+      { apply valid_enc; [tagok|apply small_enc_tlv in Hs5; exact Hs5|].
+        apply all_bytes_concat. rewrite Forall_forall in *. intros x Hin. apply in_map_iff in Hin as (c0 & <- & Hc0).
+        apply small_enc_tlv in Hs5. apply small_concat in Hs5. rewrite Forall_forall in Hs5.
+        apply (valid_full_bytes (mk_crl c0)). apply crl_reparse; [apply Hcr; exact Hc0|]. apply Hs5. apply in_map. exact Hc0. }
+      exists (mkTlv OCT_crls b (enc_tlv OCT_crls b)), (enc_tlv OCT_sis sbody). split; [exact Hv5|]. split; [cbn [t_tag]; rewrite OCT_crls_v, OCT_certs_v; lia|reflexivity].
+    - right. exists (mkTlv OCT_sis sbody (enc_tlv OCT_sis sbody)), []. split; [exact Hv6|]. split; [cbn [t_tag]; rewrite OCT_sis_v, OCT_certs_v; lia|].
+      cbn [t_full app]. rewrite app_nil_r. reflexivity. }
+  destruct (certs_step (sd_certs sd) _ Hce Hs4 Hn4) as (r4 & Hr4 & Ho4).
+  (* now read the emitted bytes field by field *)
+  unfold parse_sd_body.
+  rewrite read_expect_enc by (try tagok; exact Hcs). cbn [bind fst snd t_body]. rewrite Hci. cbn [negb].
+  rewrite read_expect_enc by (try tagok; exact Hs2). cbn [bind fst snd t_body].
+  subst dbody. rewrite parse_list_emit by exact Hd. cbn [bind].
+  rewrite (emit_ci_wf _ Hci'). destruct (wf_ci_mk _ Hci') as (Hv3 & Ht3 & Hp3).
+  change (ci_raw (sd_ci sd)) with (t_full (mk_raw (ci_raw (sd_ci sd)))) at 1.
+  rewrite read_expect_valid by assumption. cbn [bind fst snd]. rewrite Hp3. cbn [bind].
+  rewrite certs_opt_v, Hr4. cbn [bind fst snd]. rewrite Ho4. cbn [bind].
+  rewrite crls_opt_v, Hr5. cbn [bind fst snd]. rewrite Ho5. cbn [bind].
+  rewrite <- (app_nil_r (enc_tlv OCT_sis sbody)).
+  rewrite read_expect_enc by (try tagok; exact Hs6). cbn [bind fst snd t_body].
+  subst sbody. rewrite parse_list_emit by exact Hsm. cbn [bind].
+  unfold norm_sd. rewrite Hver. reflexivity.
+Qed.
+
+(* ------------------------------------------------------------------ ContentInfoSignedData: Unmarshal, Marshal, Unmarshal *)
+Definition wf_cms (o : cms) : Prop :=
+  oid_ok (o_ctype o) = true /\ all_bytes (o_ctype o) = true /\ small (o_ctype o) /\
+  match o_sd o with Some sd => wf_sd sd | None => True end.
+Definition norm_cms (o : cms) : cms := mkCms (o_ctype o) (option_map norm_sd (o_sd o)).
+
+Lemma parse_cms_body_wf body o : all_bytes body = true -> parse_cms_body body = Ok o -> wf_cms o.
+Proof.
+  intros Hb H. unfold parse_cms_body in H.
+  inv_bind H. destruct x as [t1 rest1]. apply read_expect_ok in E as (Hl1 & Hv1 & Ht1 & Hr1); [|exact Hb].
+  cbn [fst snd] in H. destruct (oid_ok (t_body t1)) eqn:Eo; cbn [negb] in H; [|discriminate].
+  assert (Hbase : forall sd, match sd with Some s => wf_sd s | None => True end -> wf_cms (mkCms (t_body t1) sd)).
+  { intros sd Hsd. unfold wf_cms. cbn. auto using valid_body_bytes, valid_small. }
+  destruct rest1 as [|b r1]; [inversion H; subst; apply Hbase; exact I|].
+  inv_bind H. destruct x as [[tag len] r].
+  assert (Hr : all_bytes r = true).
+  { apply read_hdr_canon in E as (Hl & _); [|exact Hr1]. rewrite Hl in Hr1. apply all_bytes_cons in Hr1 as [_ Hr1].
+    apply all_bytes_app_iff in Hr1. tauto. }
+  destruct r as [|b2 r2]; [discriminate|].
+  destruct ((tag =? OCT_explicit) || (tag =? OCT_explicit_prim) && (len =? 0)); [|inversion H; subst; apply Hbase; exact I].
+  destruct (len >? 0); [|discriminate].
+  inv_bind H. destruct x as [[tag2 len2] r3]. destruct (tag2 =? T_SEQ); [|inversion H; subst; apply Hbase; exact I].
+  inv_bind H. destruct x as [t rest]. apply read_tlv_ok in E1 as (_ & Hv & _); [|exact Hr].
+  inv_bind H. cbn [fst] in E1. apply parse_sd_body_wf in E1; [|apply valid_body_bytes; exact Hv].
+  inversion H; subst. apply Hbase. exact E1.
+Qed.
+
+Lemma trailing_nil : unmarshal_trailing_garbage trim_right [] = false.
+Proof. reflexivity. Qed.
+
+Lemma parse_cms_wf x o : all_bytes x = true -> parse_cms x = Ok o -> wf_cms o.
+Proof.
+  intros Hb H. unfold parse_cms in H. rewrite layout_ok_true in H. cbn [negb] in H.
+  inv_bind H. destruct x0 as [t rest]. apply read_expect_ok in E as (_ & Hv & _ & _); [|exact Hb].
+  inv_bind H. cbn [fst] in E. apply parse_cms_body_wf in E; [|apply valid_body_bytes; exact Hv].
+  destruct (unmarshal_trailing_garbage trim_right (snd (t, rest))); [discriminate|]. inversion H; subst. exact E.
+Qed.
+
+Lemma emit_sd_body_bytes sd : wf_sd sd -> small (emit_sd_body sd) -> all_bytes (emit_sd_body sd) = true.
+Proof.
+  (* the emitted body parses, and everything the parser accepts... simpler: by construction *)
+  intros Hw Hs. pose proof (sd_reparse sd Hw Hs) as Hp.
+  destruct Hw as ((c & Hcb & Hci & Hcs & Hver) & Hda & Hci' & Hce & Hcr & Hsi).
+  unfold emit_sd_body in *. rewrite dalgs_set_v, sis_set_v in *. cbn [maybe_sort] in *.
+  apply small_app in Hs as [_ Hs]. apply small_app in Hs as [Hs2 Hs]. apply small_app in Hs as [_ Hs].
+  apply small_app in Hs as [Hs4 Hs]. apply small_app in Hs as [Hs5 Hs6].
+  apply small_enc_tlv in Hs2. apply small_enc_tlv in Hs6.
+  assert (Henc : forall tag body, tag_ok tag -> small body -> all_bytes body = true -> all_bytes (enc_tlv tag body) = true).
+  { intros tag body Ht Hsb Hbb. apply (valid_full_bytes (mkTlv tag body (enc_tlv tag body))). apply valid_enc; assumption. }
+  apply all_bytes_app_iff; split; [|apply all_bytes_app_iff; split; [|apply all_bytes_app_iff; split; [|apply all_bytes_app_iff; split; [|apply all_bytes_app_iff; split]]]].
+  - rewrite Hver, (enc_dec_int c Hcb Hci). apply Henc; [tagok|assumption|assumption].
+  - apply Henc; [tagok|exact Hs2|]. apply all_bytes_concat. apply small_concat_sort in Hs2.
+    rewrite Forall_forall in *. intros b Hin. apply -> In_sort_b in Hin. apply in_map_iff in Hin as (a & <- & Ha).
+    apply (valid_full_bytes (mk_alg a)). apply algid_reparse; [apply Hda; exact Ha|]. apply Hs2. apply in_map. exact Ha.
+  - rewrite (emit_ci_wf _ Hci'). destruct Hci' as (t & Hv & _ & Hp'). rewrite (parse_ci_raw _ _ Hp'). apply valid_full_bytes. exact Hv.
+  - destruct (sd_certs sd) as [l|]; cbn [option_map emit_opt_list opt_list] in *; [|reflexivity].
+    apply Henc; [tagok|apply small_enc_tlv in Hs4; exact Hs4|]. apply all_bytes_concat.
+    rewrite certs_set_v. cbn [maybe_sort]. unfold wf_raws in Hce. rewrite Forall_forall in *. intros b Hin. destruct (Hce b Hin) as (t & Hv & ->). apply valid_full_bytes. exact Hv.
+  - destruct (sd_crls sd) as [l|]; cbn [option_map emit_opt_list opt_list] in *; [|reflexivity].
+    apply small_enc_tlv in Hs5. apply Henc; [tagok|exact Hs5|]. apply all_bytes_concat. apply small_concat in Hs5.
+    rewrite Forall_forall in *. intros b Hin. apply in_map_iff in Hin as (c0 & <- & Hc0).
+    apply (valid_full_bytes (mk_crl c0)). apply crl_reparse; [apply Hcr; exact Hc0|]. apply Hs5. apply in_map. exact Hc0.
+  - apply Henc; [tagok|exact Hs6|]. apply all_bytes_concat.
+    rewrite Forall_forall in *. intros b Hin. apply -> In_sort_b in Hin. apply in_map_iff in Hin as (s & <- & Hs').
+    rewrite (emit_si_wf _ (Hsi s Hs')). destruct (Hsi s Hs') as (t & Hv & _ & Hp'). rewrite (parse_si_raw _ _ Hp'). apply valid_full_bytes. exact Hv.
+Qed.
+
+Lemma cms_reparse o : wf_cms o -> small (emit_cms o) -> parse_cms (emit_cms o) = Ok (norm_cms o).
+Proof.
+  intros (Ho & Hob & Hos & Hsd) Hs. unfold emit_cms in *. apply small_enc_tlv in Hs.
+  unfold parse_cms. rewrite layout_ok_true. cbn [negb].
+  rewrite <- (app_nil_r (enc_tlv T_SEQ _)). rewrite read_expect_enc by (try tagok; exact Hs).
+  cbn [bind fst snd t_body]. rewrite trailing_nil.
+  unfold parse_cms_body. rewrite read_expect_enc by (try tagok; exact Hos). cbn [bind fst snd t_body]. rewrite Ho. cbn [negb].
+  destruct (o_sd o) as [sd|] eqn:Esd.
+  - apply small_app in Hs as [_ Hs]. pose proof Hs as Hs1. apply small_enc_tlv in Hs1. pose proof Hs1 as Hs2. apply small_enc_tlv in Hs2.
+    pose proof (emit_sd_body_bytes sd Hsd Hs2) as Hbb.
+    set (inner := enc_tlv T_SEQ (emit_sd_body sd)) in *.
+    assert (Hvi : valid (mkTlv T_SEQ (emit_sd_body sd) inner)) by (apply valid_enc; [tagok|assumption|assumption]).
+    assert (Hvw : valid (mkTlv OCT_explicit inner (enc_tlv OCT_explicit inner))).
+    { apply valid_enc; [tagok|exact Hs1|]. apply (valid_full_bytes _ Hvi). }
+    destruct (valid_nonempty _ Hvw) as (b & r & Hbr). cbn [t_full] in Hbr. rewrite Hbr. rewrite <- Hbr.
+    pose proof (read_hdr_valid _ [] Hvw) as Hh. cbn [t_full t_tag t_body] in Hh. rewrite !app_nil_r in Hh. rewrite Hh. cbn [bind].
+    destruct (valid_nonempty _ Hvi) as (b2 & r2 & Hbr2). cbn [t_full] in Hbr2. rewrite Hbr2. rewrite <- Hbr2.
+    rewrite Z.eqb_refl. cbn [orb].
+    replace (zlen inner >? 0) with true by (rewrite Hbr2, zlen_cons; pose proof (zlen_nonneg r2); lia).
+    pose proof (read_hdr_valid _ [] Hvi) as Hh2. cbn [t_full t_tag t_body] in Hh2. rewrite !app_nil_r in Hh2. rewrite Hh2. cbn [bind].
+    change (T_SEQ =? T_SEQ) with true. cbv iota.
+    pose proof (read_tlv_valid _ [] Hvi) as Hr. cbn [t_full] in Hr. rewrite app_nil_r in Hr. rewrite Hr. cbn [bind fst t_body].
+    rewrite (sd_reparse sd Hsd Hs2). cbn [bind]. unfold norm_cms. rewrite Esd. reflexivity.
+  - cbn [app]. try rewrite app_nil_r. unfold norm_cms. rewrite Esd. reflexivity.
+Qed.
+
+(* ------------------------------------------------------------------ regions *)
+Lemma regions_norm sd : Forall wf_si (sd_sis sd) -> regions_of (norm_sd sd) = regions_of sd.
+Proof.
+  intros Hsi. unfold regions_of, norm_sd. cbn [sd_ci sd_certs sd_crls sd_sis]. f_equal.
+  assert (E : map si_raw (sort_on emit_si (sd_sis sd)) = map emit_si (sort_on emit_si (sd_sis sd))).
+  { apply map_ext_Forall. apply Forall_sort_on. rewrite Forall_forall in *. intros s Hs. symmetry. apply emit_si_wf. apply Hsi. exact Hs. }
+  rewrite E, map_sort_on, sort_b_idem. f_equal. apply map_ext_Forall.
+  rewrite Forall_forall in *. intros s Hs. apply emit_si_wf. apply Hsi. exact Hs.
+Qed.
+
+Lemma sort_on_idem_emit {A} (key : A -> bytes) l : sort_b (map key (sort_on key l)) = sort_b (map key l).
+Proof. rewrite map_sort_on. apply sort_b_idem. Qed.
+
+Lemma emit_norm_sd sd : emit_sd_body (norm_sd sd) = emit_sd_body sd.
+Proof.
+  unfold emit_sd_body, norm_sd. cbn [sd_version sd_dalgs sd_ci sd_certs sd_crls sd_sis].
+  rewrite dalgs_set_v, sis_set_v. cbn [maybe_sort]. rewrite !sort_on_idem_emit. reflexivity.
+Qed.
+Lemma emit_norm_cms o : emit_cms (norm_cms o) = emit_cms o.
+Proof.
+  unfold emit_cms, norm_cms. cbn [o_ctype o_sd]. destruct (o_sd o); cbn [option_map]; [|reflexivity]. rewrite emit_norm_sd. reflexivity.
+Qed.
+
+(* THE round trip: what Unmarshal accepted is emitted by Marshal in a form that Unmarshal accepts again, with the same
+   signed regions; and emitting that once more gives the same bytes. *)
+Theorem signed_regions_stable x o :
+  all_bytes x = true -> parse_cms x = Ok o -> zlen (emit_cms o) < 2 ^ 31 ->
+  exists o', parse_cms (emit_cms o) = Ok o' /\ cms_regions o' = cms_regions o /\ emit_cms o' = emit_cms o.
+Proof.
+  intros Hb Hp Hs. pose proof (parse_cms_wf x o Hb Hp) as Hw.
+  exists (norm_cms o). split; [apply cms_reparse; assumption|]. split; [|apply emit_norm_cms].
+  unfold cms_regions, norm_cms. cbn [o_sd]. destruct Hw as (_ & _ & _ & Hsd).
+  destruct (o_sd o) as [sd|]; cbn [option_map]; [|reflexivity]. f_equal. apply regions_norm. apply Hsd.
+Qed.
